@@ -57,6 +57,12 @@ class Plan(object):
         self.no_before_all = bool(program.get("no_before_all"))
         # hook functions that the environment file does not define at all (e.g. after_tag without before_tag)
         self.omit_hooks = list(program.get("omit_hooks") or [])
+        # before_all installs a user handler for cleanup errors (documented: context.on_cleanup_error = handler);
+        # whatever the handler does or returns, a raising cleanup still counts
+        self.cleanup_handler = program.get("cleanup_handler")
+        # how the environment file defines its hooks: plain functions (default), functools.partial objects,
+        # bound methods of a helper object, or callable instances -- any callable is a hook
+        self.hook_style = program.get("hook_style")
 
 
 _EXC = {"Exception": RuntimeError, "AssertionError": AssertionError, "KeyboardInterrupt": KeyboardInterrupt}
@@ -94,6 +100,17 @@ def make_hooks(plan):
                         elem.status     # noqa: read only
                 if args and hasattr(args[0], "status"):
                     args[0].status      # noqa: read only
+            if plan.cleanup_handler and name == "before_all":
+                if plan.cleanup_handler == "builtin-ignore":
+                    context.on_cleanup_error = context.ignore_cleanup_error
+                else:
+                    seen_errors = plan.notes
+                    result = {"true": True, "none": None}[plan.cleanup_handler]
+
+                    def handle_cleanup_error(context_, cleanup_func, exception, _result=result):
+                        seen_errors.append({"kind": "cleanup-error-handled", "error": repr(exception)[:80]})
+                        return _result
+                    context.on_cleanup_error = handle_cleanup_error
             if plan.probe_protocol and name in ("before_all", "before_feature", "before_scenario"):
                 from behave.tag_expression import TagExpressionProtocol, make_tag_expression
                 note = {"kind": "protocol", "hook": name, "value": TagExpressionProtocol.current().name}
@@ -238,6 +255,10 @@ def step_definitions(plan):
         enter(context, uid)
         raise TimeoutError(message(uid, "step %s times out" % uid))
 
+    def do_raise_notimpl(context, uid):
+        enter(context, uid)
+        raise NotImplementedError(message(uid, "step %s hits a stub" % uid))
+
     def do_pending(context, uid):
         enter(context, uid)
         raise StepNotImplementedError("step %s pends" % uid)
@@ -258,7 +279,7 @@ def step_definitions(plan):
         enter(context, uid)     # must never be reached: conversion of n fails
 
     by_outcome = {"pass": do_pass, "fail": do_fail, "raise": do_raise, "raise_timeout": do_raise_timeout,
-                  "pending": do_pending,
+                  "raise_notimpl": do_raise_notimpl, "pending": do_pending,
                   "skip": do_skip, "interrupt": do_interrupt}
 
     def do_act(context, uid):
@@ -293,7 +314,7 @@ def step_definitions(plan):
                            "raised": raised})
 
     table = [("passes", do_pass), ("fails", do_fail), ("raises", do_raise), ("times out", do_raise_timeout),
-             ("pends", do_pending), ("skips", do_skip), ("interrupts", do_interrupt),
+             ("hits a stub", do_raise_notimpl), ("pends", do_pending), ("skips", do_skip), ("interrupts", do_interrupt),
              ("acts", do_act), ("nests", do_nest), ("aborts", do_abort)]
     defs = []
     for phrase, func in table:
